@@ -547,7 +547,8 @@ class Engine:
                     g, fx = self.eval_clause(ctx, fn, kw)
                     add(f'post.{pname}', g, list(fx) + univ)
                     for (ln, lc, lh) in self.pending_lemmas:
-                        add(f'post.{pname}.lemma.{ln}', lc, univ, kind='lemma', hy=lh)
+                        # a model limit met while evaluating the clause makes the clause undecided there, never violated
+                        add(f'post.{pname}.lemma.{ln}', lc, univ, kind='soft' if ln.startswith('side.soft:') else 'lemma', hy=lh)
                     self.pending_lemmas = []
                 except Unsupported as e:
                     obls.append(self.undecided(prop, cname, case, f'post.{pname}', n, str(e)))
@@ -681,6 +682,20 @@ def _solve(job):
         base.from_string(smt)
         asserts = base.assertions()
         r, s, backend, reason = z3.unknown, None, 'z3', None
+        # rung 0: products and quotients of non-constant terms as uninterpreted functions.  If the obligation already follows with
+        # multiplication left abstract (congruence only), it follows; this keeps proofs that need no nonlinear reasoning away from the
+        # nonlinear solver, whose running time on irrelevant hypotheses is what varies from run to run
+        try:
+            ab = _abstract_products(asserts, ctx)
+            if ab is not None:
+                s0 = z3.Solver(ctx=ctx)
+                s0.set('timeout', min(4000, timeout_ms))
+                s0.set('random_seed', seed)
+                s0.add(*ab)
+                if s0.check() == z3.unsat:
+                    return idx, 'unsat', time.time() - t0, None, 'z3-products-abstracted', None
+        except z3.Z3Exception:
+            pass
         # short attempts first (a loaded machine must not push an easy query into a long wrong-strategy attempt), then the full budgets
         # the last two rungs re-try with other random seeds: a query that is easy most of the time but occasionally wanders off
         # (seen under full machine load) must not turn a proof into "undecided"
@@ -778,6 +793,63 @@ def _solve(job):
         return idx, status, time.time() - t0, model, backend, reason
     except Exception as e:      # noqa
         return idx, 'error', time.time() - t0, None, 'z3', f'{type(e).__name__}: {e}'
+
+
+def _abstract_products(asserts, ctx):
+    """the assertions with every product of two or more non-constant factors, every quotient by a non-constant and every power replaced
+    by an application of an uninterpreted function (None when there is nothing to abstract)"""
+    R = z3.RealSort(ctx)
+    Imul = {}
+    cache = {}
+    found = [False]
+
+    def uf(name, n):
+        key = (name, n)
+        if key not in Imul:
+            Imul[key] = z3.Function(f'{name}{n}', *([R] * n), R)
+        return Imul[key]
+
+    def real(e):
+        return z3.ToReal(e) if e.sort().kind() == z3.Z3_INT_SORT else e
+
+    def back(e, like):
+        return z3.ToInt(e) if like.sort().kind() == z3.Z3_INT_SORT else e
+
+    def walk(e):
+        k = e.get_id()
+        if k in cache:
+            return cache[k]
+        if z3.is_quantifier(e) or not z3.is_app(e):
+            cache[k] = e
+            return e
+        kind = e.decl().kind()
+        ch = [walk(c) for c in e.children()]
+        out = None
+        if kind == z3.Z3_OP_MUL:
+            consts = [c for c in ch if z3.is_rational_value(c) or z3.is_int_value(c)]
+            rest = [c for c in ch if not (z3.is_rational_value(c) or z3.is_int_value(c))]
+            if len(rest) >= 2:
+                found[0] = True
+                rest = sorted(rest, key=lambda c: c.get_id())
+                prod = uf('nlmul', len(rest))(*[real(c) for c in rest])
+                for c in consts:
+                    prod = real(c) * prod
+                out = back(prod, e)
+        elif kind == z3.Z3_OP_DIV and not (z3.is_rational_value(ch[1]) or z3.is_int_value(ch[1])):
+            found[0] = True
+            out = uf('nldiv', 2)(real(ch[0]), real(ch[1]))
+        elif kind == z3.Z3_OP_POWER:
+            found[0] = True
+            out = uf('nlpow', 2)(real(ch[0]), real(ch[1]))
+        elif kind in (z3.Z3_OP_IDIV, z3.Z3_OP_MOD, z3.Z3_OP_REM) and not z3.is_int_value(ch[1]):
+            found[0] = True
+            out = z3.ToInt(uf('nl' + e.decl().name().replace('%', 'mod'), 2)(real(ch[0]), real(ch[1])))
+        if out is None:
+            out = e.decl()(*ch) if ch else e
+        cache[k] = out
+        return out
+    res = [walk(a) for a in asserts]
+    return res if found[0] else None
 
 
 def _trig_refinements(m, asserts, ctx):
